@@ -65,4 +65,21 @@ PROPS = {
         "trusted_base": BASE_TRUST + ["allocator rounding / capacity growth is the runtime's; try_reserve_exact requests exactly the length"],
         "assumptions": ["big surfaces are decoded from an empty source: every allocation happens before the first read (C06_allocs_first), so the requests are still observed"],
     },
+    "C11": {
+        "kernel_sample": 300,
+        "rule": "exhaustive call sequences of depth 4 (quick; thorough: 6) over {write right size, write wrong size, write already cancelled, toggle mipmap generation, finish} "
+                "on 14 layouts (texture 1/3/full mips, arrays 0/3/2, cube +- mips, partial cube, volumes 1/3 mips, DX9 volume, 1D) x 6 formats (fixed 1/4/8 B, BC1, YUY2, NV12 with its 2x2 size multiple), "
+                "both initial generate settings, plus seeded random sequences of depth 3..40; after every call: verdict, bytes in the writer, next surface size/len/is-mipmap; "
+                "finished files are re-opened with Decoder (implementation-only oracle); distinct = distinct case lines",
+        "trusted_base": BASE_TRUST + ["the encode call is abstracted to 'refused before the first byte (cancelled / invalid size) or writes exactly the layout length' - checked on the implementation after every call"],
+        "assumptions": ["cancellation arriving during a write and writer I/O errors are outside the property (documented as leaving the writer inconsistent)"],
+    },
+    "C10": {
+        "kernel_sample": 200,
+        "rule": "14 layouts x 6 formats x seeded sizes 1..70 (all residues of the block sizes; odd sizes for NV12 in a quarter of the cases) x mip counts {1, 1..4, full chain} x volume depths 1..5 "
+                "x generate on/off with toggles x parallel on/off x random call sequences ending in finish; byte count after every call vs the model; every finished file is re-opened: "
+                "length = header + data length, same header, format and layout, every surface decodes, last surface ends at EOF; distinct = distinct case lines",
+        "trusted_base": BASE_TRUST + ["re-reading equality of header/format/layout and decodability of every surface are implementation-only oracles of this check (header model: C09; pixel content: C03-C05, C12)"],
+        "assumptions": ["12 input colour formats x quality x dithering x metric are exercised by C12/C13/C15, not here: this check feeds RGBA_U8 at quality Fast"],
+    },
 }
